@@ -44,18 +44,20 @@ Sorted(S) == LET RECURSIVE Srt(_)
                  Srt(T) == IF T = {} THEN <<>>
                            ELSE LET m == SeqMin(T) IN <<m>> \o Srt(T \ {m})
              IN Srt(S)
-VisitOrder(G, pos) ==
+\* (the synsets of the extension, X, come after those of the lexicon it extends)
+VisitOrder(G, pos, X) ==
   LET same == {x \in Nodes(G) : G.pos[x] = pos}
       twin == IF pos \in {"a", "s"}
               THEN {x \in Nodes(G) : G.pos[x] \in {"a", "s"} /\ G.pos[x] # pos} ELSE {}
-  IN Sorted(same) \o Sorted(twin)
+  IN Sorted(same \ X) \o Sorted(same \cap X) \o Sorted(twin \ X) \o Sorted(twin \cap X)
+ExtNodes(r) == IF "xnodes" \in DOMAIN r.g THEN Rng(r.g.xnodes) ELSE {}
 TaxDepthOK(G, t) == t[6] = "ok" /\ t[7] = TaxDepth(G, t[1])
 \* known deviation: the `seen' shortcut of taxonomy_depth under-reports on
 \* graphs with a directed cycle; explained only if the value is exactly what
 \* the transcribed algorithm yields on this cyclic graph.
-DevTaxDepthSeenShortcut(G, t) ==
+DevTaxDepthSeenShortcut(G, t, X) ==
   /\ Cyclic(G) /\ ~TaxDepthOK(G, t)
-  /\ t[6] = "ok" /\ t[7] = TaxDepthAlgo(G, VisitOrder(G, t[1]), {}, 0)
+  /\ t[6] = "ok" /\ t[7] = TaxDepthAlgo(G, VisitOrder(G, t[1], X), {}, 0)
 
 Fails(r) ==
   IF "timeout" \in DOMAIN r THEN {"Terminates"} ELSE
@@ -69,12 +71,12 @@ Fails(r) ==
      \cup (IF SpSymOK(G, o) THEN {} ELSE {"ShortestPathSymmetric"})
      \cup (IF RootsOK(G, o) THEN {} ELSE {"Roots"})
      \cup (IF LeavesOK(G, o) THEN {} ELSE {"Leaves"})
-     \cup (IF \A t \in Rng(o.bypos) : TaxDepthOK(G, t) \/ DevTaxDepthSeenShortcut(G, t)
+     \cup (IF \A t \in Rng(o.bypos) : TaxDepthOK(G, t) \/ DevTaxDepthSeenShortcut(G, t, ExtNodes(r))
            THEN {} ELSE {"TaxonomyDepth"})
 Devs(r) ==
   IF "timeout" \in DOMAIN r THEN {} ELSE
   LET G == GraphOf(r) IN
-    IF \E t \in Rng(r.c13.bypos) : DevTaxDepthSeenShortcut(G, t)
+    IF \E t \in Rng(r.c13.bypos) : DevTaxDepthSeenShortcut(G, t, ExtNodes(r))
     THEN {"DevTaxDepthSeenShortcut"} ELSE {}
 
 Judge == LET r == Recs[i]  f == Fails(r)  d == Devs(r) IN
